@@ -4,6 +4,7 @@ EXTENDS ResMgr
 VARIABLES pl, clm, looseC
 vars == <<pl, clm, looseC>>
 aTxt == <<97,46,116,120,116>>   ATXT == <<65,46,84,88,84>>   bMap == <<98,46,109,97,112>>   cTrk == <<99>>   bTxt == <<98,46,116,120,116>>
+eight == <<116,114,107,95,48,48,48,56>>      \* "trk_0008": a CLM member name of exactly 8 characters fills its name field (no terminator is stored)
 xVol == <<120,46,118,111,108>>  yVol == <<121,46,118,111,108>>  zClm == <<122,46,99,108,109>>
 \* where a name may live: 1 loose, 2 in x.vol, 3 in y.vol  (cTrk: 1 loose, 4 in z.clm)
 Places == {1, 2, 3}
@@ -11,14 +12,14 @@ Universe == << aTxt, ATXT, bMap, bTxt >>
 Upper(s) == [i \in 1..Len(s) |-> IF s[i] >= 97 /\ s[i] <= 122 THEN s[i] - 32 ELSE s[i]]
 SubDir == <<115, 117, 98, 47>>      \* "sub/" : an (empty) sub-directory of the resource directory; no archive member carries a directory component
 Queries == << aTxt, ATXT, DotSlash \o aTxt, bMap, Upper(bMap), DotSlash \o Upper(bMap), bTxt, Upper(bTxt), cTrk, Upper(cTrk), <<47>> \o aTxt, <<113>>,
-              SubDir \o aTxt, Upper(SubDir) \o ATXT, DotSlash \o SubDir \o bMap, <<111, 47>> \o cTrk >>
+              SubDir \o aTxt, Upper(SubDir) \o ATXT, DotSlash \o SubDir \o bMap, <<111, 47>> \o cTrk, eight, Upper(eight), DotSlash \o eight, SubSeq(eight, 1, 7) >>
 ExtTxt == <<46,116,120,116>>   ExtMap == <<46,109,97,112>>
 \* the spellings of an extension: with and without the dot, in either case, a proper prefix of an extension, the empty one
 TypeQueries == << ExtTxt, Upper(ExtTxt), <<116,120,116>>, <<84,88,84>>, <<46,84,120,116>>, ExtMap, <<77,97,112>>, <<>>, <<46,116,120>>, <<120,116>>, <<46>> >>
 Pat(k, t) == [kind |-> k, text |-> t]
 \* "root" and "s" occur in the directory part of the sandbox path but in no file name: a pattern evaluated on the path would match everything
 Patterns == << Pat("prefix", <<97>>), Pat("suffix", <<46,116,120,116>>), Pat("contains", <<98,46>>), Pat("exact", aTxt), Pat("contains", <<118,111,108>>),
-               Pat("prefix", <<120>>), Pat("contains", <<114,111,111,116>>), Pat("suffix", <<84,88,84>>), Pat("prefix", <<47>>), Pat("exact", <<99>>) >>
+               Pat("prefix", <<120>>), Pat("contains", <<114,111,111,116>>), Pat("suffix", <<84,88,84>>), Pat("prefix", <<47>>), Pat("exact", <<99>>), Pat("exact", eight), Pat("prefix", <<116,114,107>>) >>
 \* a layout is chosen by a subset of places for each universe name, plus whether the CLM track exists and a loose "c"
 Emit(id, steps) == PrintT("S|" \o ToJson([id |-> id, steps |-> steps]))
 Blob(i) == i
@@ -37,7 +38,7 @@ Xm == SelectSeq([i \in 1..Len(Universe) |-> [name |-> Universe[i], blob |-> 10 *
 Ym == SelectSeq([i \in 1..Len(Universe) |-> [name |-> Universe[i], blob |-> 10 * i + 3, on |-> 3 \in pl[i]]], LAMBDA r : r.on)
 Vols == (IF Xm # <<>> THEN << [file |-> xVol, kind |-> "vol", members |-> Xm] >> ELSE <<>>)
         \o (IF Ym # <<>> THEN << [file |-> yVol, kind |-> "vol", members |-> Ym] >> ELSE <<>>)
-Clms == IF clm THEN << [file |-> zClm, kind |-> "clm", members |-> << [name |-> cTrk, blob |-> 94] >>] >> ELSE <<>>
+Clms == IF clm THEN << [file |-> zClm, kind |-> "clm", members |-> << [name |-> cTrk, blob |-> 94], [name |-> eight, blob |-> 95] >>] >> ELSE <<>>
 Rev == [i \in 1..Len(Vols) |-> Vols[Len(Vols) + 1 - i]]
 \* the two load orders the directory iteration may produce
 Layouts == << [loose |-> Loose, archives |-> Vols \o Clms], [loose |-> Loose, archives |-> Rev \o Clms] >>
